@@ -27,6 +27,11 @@ pub fn validate(uri: &str) -> Result<NonZeroU8, MxcUriError> {
     } else if server_name::validate(server_name).is_err() {
         Err(MxcUriError::ServerNameMalformed)
     } else {
-        Ok(NonZeroU8::new((index + 6) as u8).unwrap())
+        // The index of the slash is stored in a single byte: a server name that would move it out of that
+        // range (more than 249 bytes) cannot be represented.
+        u8::try_from(index + 6)
+            .ok()
+            .and_then(NonZeroU8::new)
+            .ok_or(MxcUriError::ServerNameMalformed)
     }
 }
